@@ -1,7 +1,7 @@
 """C11 — primitive distance functions: global minimum (structural clauses)."""
 from . import scopes
 from ..core.report import DOMAIN_D
-from ..rules import features, degree, roles, mirror
+from ..rules import features, degree, roles, mirror, runmin
 
 
 def run(idx, rep, tier):
@@ -18,6 +18,7 @@ def run(idx, rep, tier):
     features.r_features(idx, rep)
     features.r_clampconvex(idx, rep)
     roles.r_triple(idx, rep)
+    runmin.r_runmin(idx, rep, [x.name for x in idx.lib_modules() if x.name.startswith("distance3d.distance")], floor=6)
     mirror.r_mirror(idx, rep)
     mirror.r_casedispatch(idx, rep)
     mirror.r_tournament(idx, rep)
